@@ -14,7 +14,7 @@ func init() {
 		ID:          "C01",
 		Explanation: "(R1.1) Solver.Solve can only return Sat or Unsat: the range of every value that can flow into the status, minus what the loop guard excludes, is {Sat, Unsat}, on every path; (R1.2) every clause stored in the clause database (problem clauses and learned clauses) is registered in the watch lists by the function that stores it; (R1.4) every learned clause dropped from the database is removed from the watch lists in the same step; (R1.5) the model published by Solve is a fresh copy taken when Sat is concluded, never an alias of the working assignment.",
 		NotDecided:  "that the verdict is right and the model satisfies every clause: this depends on watch positions, learning, restarts and deletion timing, i.e. on the search history.",
-		Rules:       []ruleFn{ruleR1_1, ruleR1_2, ruleR1_4, ruleR1_5, ruleR1_7, ruleR1_8, ruleR2_2, ruleR2_6},
+		Rules:       []ruleFn{ruleR1_1, ruleR1_2, ruleR1_4, ruleR1_5, ruleR1_7, ruleR1_8, ruleR2_2, ruleR2_6, ruleR2_7, ruleR2_8, ruleR14_3},
 	})
 }
 
@@ -556,6 +556,25 @@ func ruleR1_4(w *World, r *Report) {
 		for _, st := range storesToField(fn, "solver.watcherList", "learned") {
 			if sl, ok := st.Val.(*ssa.Slice); ok && sl.High != nil {
 				shrinks = true
+				// the list is cut by exactly the number of clauses dropped: high = len(learned) - (counter of drops)
+				key := fmt.Sprintf("%s truncates the learned list by the number dropped", w.FuncName(fn))
+				lf := lfOf(sl.High, 0)
+				lenTerms, minusPhi := 0, 0
+				vals := valueByName(fn)
+				for k, v := range lf.terms {
+					switch {
+					case v == 1 && strings.HasPrefix(k, "len(") && strings.Contains(k, "learned"):
+						lenTerms++
+					case v == -1:
+						if phi, ok := vals[k].(*ssa.Phi); ok && isUnitCounter(phi) {
+							minusPhi++
+						}
+					case v != 0:
+						lenTerms = -10
+					}
+				}
+				r.Check(lf.c == 0 && lenTerms == 1 && minusPhi == 1, "R1.4", key, w.InstrPos(st), "high bound = len(learned) - number dropped",
+					"the learned list is not shortened by the number of clauses dropped (bound "+lf.String()+"): dropped clauses stay in the list (and are unwatched a second time later) or live ones are cut off")
 			}
 		}
 		if !shrinks {
